@@ -275,8 +275,16 @@ def _get_path(grid, obj, paths):
     try:
         for i, path in enumerate(paths):
             obj = obj[path]
-            if i != len(paths)-1 and isinstance(obj, Ref):
-                obj = grid[obj.name]  # Follow the reference
+            if i != len(paths)-1:
+                if not isinstance(obj, Ref):
+                    # Only references can be followed
+                    return NOT_FOUND
+                # Follow the reference: the target's id is normally a Ref
+                # (indexed as '@name'), sometimes given as a plain string.
+                try:
+                    obj = grid[Ref(obj.name)]
+                except KeyError:
+                    obj = grid[obj.name]
         return obj  # It's a value at this time
     except KeyError:
         return NOT_FOUND
